@@ -243,7 +243,7 @@ func decodeRecord(reader *bytes.Reader, baseOffset int64, baseTimestamp int64, t
 		return Record{}, err
 	}
 
-	timestampDelta, err := readVarint(buf)
+	timestampDelta, err := readVarlong(buf)
 	if err != nil {
 		return Record{}, err
 	}
@@ -302,7 +302,7 @@ func decodeRecord(reader *bytes.Reader, baseOffset int64, baseTimestamp int64, t
 		Topic:     topic,
 		Partition: partition,
 		Offset:    baseOffset + int64(offsetDelta),
-		Timestamp: baseTimestamp + int64(timestampDelta),
+		Timestamp: baseTimestamp + timestampDelta,
 		Key:       key,
 		Value:     value,
 		Headers:   headers,
@@ -362,7 +362,28 @@ func readVarint(reader *bytes.Reader) (int32, error) {
 }
 
 func zigZagDecode(value int32) int32 {
-	return (value >> 1) ^ -(value & 1)
+	return int32(uint32(value)>>1) ^ -(value & 1)
+}
+
+// readVarlong reads a Kafka varlong (zig-zag, up to 10 bytes): the timestamp delta of a record is 64-bit.
+func readVarlong(reader *bytes.Reader) (int64, error) {
+	var shift uint
+	var value uint64
+	for {
+		b, err := reader.ReadByte()
+		if err != nil {
+			return 0, err
+		}
+		value |= uint64(b&0x7f) << shift
+		if b&0x80 == 0 {
+			break
+		}
+		shift += 7
+		if shift > 63 {
+			return 0, errors.New("varint too long")
+		}
+	}
+	return int64(value>>1) ^ -int64(value&1), nil
 }
 
 func readNullableBytes(reader *bytes.Reader, length int32) ([]byte, error) {
